@@ -784,4 +784,4 @@ struct ReadTransactionCounterInner {
 
 #[cfg(kani)]
 #[path = "/verif/units/kani/beatree_mod.rs"]
-mod verif_kani;
+pub(crate) mod verif_kani;
